@@ -119,7 +119,8 @@ fn check_value<K: Kmer + Serialize>(c: &mut Case, s: &S, full: bool) -> Result<u
     let (mn, flip) = x.min_rc_flip();
     let exp_min = if *s < rs { s.clone() } else { rs.clone() };
     ensure!(kstr(&mn) == exp_min && kstr(&x.min_rc()) == exp_min, "min_rc({}) = {}", ascii(s), ascii(&kstr(&mn)));
-    ensure!(flip == !(*s < rs), "min_rc_flip flag for {}", ascii(s));
+    // for a k-mer equal to its reverse complement the flag carries no information (either value is fine)
+    ensure!(flip == !(*s < rs) || *s == rs, "min_rc_flip flag for {}", ascii(s));
     ensure!(x.is_palindrome() == (*s == rs), "is_palindrome({}) = {}", ascii(s), x.is_palindrome());
     let at = s.iter().filter(|b| **b == 0 || **b == 3).count() as u32;
     ensure!(x.at_count() == at && x.gc_count() == k as u32 - at, "at_count/gc_count of {}: {} / {}", ascii(s), x.at_count(), x.gc_count());
